@@ -14,6 +14,7 @@ theorems are kept (for the id sets they also cover T = uint64).
 import Osmium.Lemmas.IdSet
 import Osmium.Lemmas.RelMap
 import Osmium.Lemmas.Stash
+import Osmium.Generated.Consts
 
 namespace Osmium.C15
 
@@ -178,5 +179,18 @@ example : Has64 [(5, 7), (2 ^ 32 + 5, 1)] ∧ InRange [(5, 7), (2 ^ 32 + 5, 1)] 
 open Osmium.Stash in
 example : (run (init 64) [.add [1], .add [2, 3], .remove 1, .gc, .get 2, .get 1]).2 =
     [.handle 1, .handle 2, .unit, .unit, .item 10 false [2, 3], .ub] := by decide
+
+/-- Tie of the stash constants to the CURRENT source (regenerated `Generated/Consts.lean`): the
+    removed marker and the four thresholds of `should_gc()`. -/
+theorem consts_tie_stash :
+    Osmium.Stash.REMOVED = Osmium.Generated.Consts.stashRemovedItemOffset ∧
+    ∀ s : Osmium.Stash.State, Osmium.Stash.shouldGc s =
+      (if s.countRemoved < Osmium.Generated.Consts.stashGcMinRemoved then false
+       else if s.countRemoved > Osmium.Generated.Consts.stashGcMaxRemoved then true
+       else if s.countRemoved * Osmium.Generated.Consts.stashGcFactor < s.countItems then false
+       else decide (s.capacity - Osmium.Stash.committed s < Osmium.Generated.Consts.stashGcFreeBytes)) := by
+  refine ⟨by decide, fun s => ?_⟩
+  simp only [Osmium.Stash.shouldGc, Osmium.Generated.Consts.stashGcMinRemoved, Osmium.Generated.Consts.stashGcMaxRemoved, Osmium.Generated.Consts.stashGcFactor, Osmium.Generated.Consts.stashGcFreeBytes]
+  rfl
 
 end Osmium.C15
